@@ -77,6 +77,13 @@ def key(case):
 
 
 def oracle(case):
+    try:
+        return oracle_(case)
+    except Exception as ex:  # noqa: BLE001
+        return False, f"{case.get('norm')}({case.get('a')}, {case.get('b')}): evaluation (scalar or array) raised {type(ex).__name__}: {ex}"
+
+
+def oracle_(case):
     """property oracle on the real implementation: documented formula, range, laws, elementwise arrays"""
     name, a, b = case["norm"], float(case["a"]), float(case["b"])
     if name not in norms_cache():
@@ -106,6 +113,19 @@ def oracle(case):
     with np.errstate(all="ignore"):
         arr = np.asarray(n.compute(np.array([a, b, a]), np.array([b, a, a])), dtype=float)
         exp = [impl(name, a, b), impl(name, b, a), impl(name, a, a)]
+        # broadcasting: scalar with array, column against row (the shapes Activated.membership produces)
+        mixed = np.asarray(n.compute(a, np.array([b, a])), dtype=float)
+        mixed2 = np.asarray(n.compute(np.array([a, b]), b), dtype=float)
+        outer = np.asarray(n.compute(np.array([[a], [b]]), np.array([b, a, a])), dtype=float)
+        exp_m = [impl(name, a, b), impl(name, a, a)]
+        exp_m2 = [impl(name, a, b), impl(name, b, b)]
+        exp_o = [[impl(name, a, b), impl(name, a, a), impl(name, a, a)], [impl(name, b, b), impl(name, b, a), impl(name, b, a)]]
+    if mixed.shape != (2,) or not np.array_equal(mixed, np.array(exp_m), equal_nan=True):
+        return False, f"{name}(scalar, array) = {mixed!r} differs from element-by-element {exp_m!r}"
+    if mixed2.shape != (2,) or not np.array_equal(mixed2, np.array(exp_m2), equal_nan=True):
+        return False, f"{name}(array, scalar) = {mixed2!r} differs from element-by-element {exp_m2!r}"
+    if outer.shape != (2, 3) or not np.array_equal(outer, np.array(exp_o), equal_nan=True):
+        return False, f"{name}(column, row) = {outer!r} differs from element-by-element {exp_o!r}"
     if arr.shape != (3,) or not all(C.close(x, Fr(y) if math.isfinite(y) else C.cls_of(y), atol=0, rtol=0) for x, y in zip(arr, exp)):
         return False, f"{name} on arrays {arr!r} differs from element-by-element {exp!r}"
     return True, "ok"
